@@ -233,6 +233,10 @@ type Puppet struct {
 	Obs   *simnet.Endpoint // observer endpoint used for dumps
 	nonce uint64
 	Seed  uint64
+
+	phase     time.Duration
+	phaseOK   bool
+	phaseScan int
 	Log   *LogBuf
 }
 
@@ -522,6 +526,76 @@ func (p *Puppet) OutboundSince(i int) ([]OutLeaf, int, error) {
 		}
 	}
 	return out, n, nil
+}
+
+// ProbePhase returns the phase of the node's probe ticker (virtual time modulo
+// ProbeInterval at which probes start), read off the first direct ping seen on
+// the wire; ok is false before any probe was sent.
+func (p *Puppet) ProbePhase() (time.Duration, bool) {
+	if p.phaseOK {
+		return p.phase, true
+	}
+	evs, _ := p.Net.EventsSince(p.phaseScan)
+	cd := p.Codec
+	if p.Conf.NoVerifyOut {
+		cd.Keys = nil
+	}
+	for i, e := range evs {
+		if (e.Kind != "pkt" && e.Kind != "pkt-lost") || e.Src != p.Addr() || e.Data == nil {
+			continue
+		}
+		info, err := cd.DecodePacket(e.Data)
+		if err != nil {
+			continue
+		}
+		for _, l := range info.Leaves {
+			if pg, ok := l.V.(*wire.Ping); ok && pg.SourceNode == p.Conf.Name && e.Dst != "" {
+				// a direct probe: addressed to the node it names
+				if pe := p.Peers[pg.Node]; pe != nil && pe.Addr() == e.Dst {
+					p.phase = e.T % p.MC.ProbeInterval
+					p.phaseOK = true
+					return p.phase, true
+				}
+			}
+		}
+		_ = i
+	}
+	p.phaseScan += len(evs)
+	return 0, false
+}
+
+// AvoidProbeTick sleeps past the next probe tick if one falls within the next
+// `window` of virtual time; it reports whether it slept.
+func (p *Puppet) AvoidProbeTick(window time.Duration) bool {
+	if p.MC.ProbeInterval <= 0 {
+		return false
+	}
+	ph, ok := p.ProbePhase()
+	if !ok {
+		return false
+	}
+	now := p.Net.Now()
+	pi := p.MC.ProbeInterval
+	into := (now - ph) % pi
+	if into < 0 {
+		into += pi
+	}
+	left := pi - into
+	if into == 0 {
+		left = 0
+	}
+	if left <= window {
+		time.Sleep(left + time.Millisecond)
+		p.Settle()
+		return true
+	}
+	// also stay clear of a tick that has just fired (its probe is being sent)
+	if into < time.Millisecond {
+		time.Sleep(time.Millisecond)
+		p.Settle()
+		return true
+	}
+	return false
 }
 
 // TapLen returns the current tap length.
